@@ -5,7 +5,7 @@
    translator's constants maxChildren, MaxNameTreeDepth, MaxNumberTreeDepth. *)
 From Coq Require Import List NArith ZArith Bool.
 From GoPdf.Base Require Import Bytes Res.
-From GoPdf.C17 Require Import KeyTree KeyTreeInst KTOrder KTMain.
+From GoPdf.C17 Require Import KeyTree KeyTreeInst KTOrder KTMain KeyGraph KGProofs.
 Import ListNotations.
 Local Open Scope nat_scope.
 
@@ -103,6 +103,49 @@ Theorem num_tree_ok_sound : forall t : znode, num_tree_ok t = true ->
   (forall k, num_lookup t k = Ok (assoc Z.eqb k (flat t))) /\ num_all t = flat t.
 Proof. exact (fun t H => proj2 (tree_ok_sound_l Z.ltb Z.eqb fanout num_maxd Z_key_order t H)). Qed.
 Print Assumptions num_tree_ok_sound.
+
+(* ---- the readers on a FILE: node dictionaries connected by references - a graph with possibly
+   shared or cyclic kids and dangling references.  The recursion of the model is bounded by the
+   nesting cap alone (fuel = maxDepth - depth), so every traversal terminates. *)
+
+(* whatever the graph: one Lookup and one enumeration cost at most twice the size of the tree
+   objects in the file - independent of the number of paths (a chain of diamonds has 2^levels) *)
+Theorem graph_work_bound : forall (K V : Type) (ltb eqb : K -> K -> bool) (maxd : nat) (H : @heap K V) root k,
+  snd (g_lookup_root ltb eqb maxd H root k) <= 2 * heap_size H /\
+  snd (g_all_root maxd H root) <= 2 * heap_size H.
+Proof. exact (@graph_work_bound_l). Qed.
+Print Assumptions graph_work_bound.
+
+(* no node is entered twice: the set of seen references never gets a duplicate *)
+Theorem graph_each_node_once : forall (K V : Type) (ltb eqb : K -> K -> bool) (H : @heap K V) fuel seen (n : @gnode K V),
+  NoDup seen ->
+  NoDup (snd (fst (g_all fuel H seen n))) /\ forall k, NoDup (snd (fst (g_lookup ltb eqb fuel H seen n k))).
+Proof. exact (@graph_each_node_once_l). Qed.
+Print Assumptions graph_each_node_once.
+
+(* a tree laid out in the file with distinct references: the graph readers are the tree readers
+   (to which lookup_write / tree_ok_sound apply) *)
+Theorem graph_lookup_tree : forall (K V : Type) (ltb eqb : K -> K -> bool) (maxd : nat) (H : @heap K V) (t : @rtree K V) k,
+  embeds H t -> NoDup (rrefs t) ->
+  fst (g_lookup_root ltb eqb maxd H (rref t) k) = lookup ltb eqb maxd (erase t) k.
+Proof. exact (@graph_lookup_tree_l). Qed.
+Print Assumptions graph_lookup_tree.
+
+Theorem graph_all_tree : forall (K V : Type) (maxd : nat) (H : @heap K V) (t : @rtree K V),
+  embeds H t -> NoDup (rrefs t) ->
+  fst (g_all_root maxd H (rref t)) = all maxd (erase t).
+Proof. exact (@graph_all_tree_l). Qed.
+Print Assumptions graph_all_tree.
+
+(* a chain of 40 diamonds (each node lists the next one twice) and a cycle: the work stays linear *)
+Definition ex_diamonds : @heap Z Z :=
+  map (fun i => Some (GInner (Some (0, 9)%Z) [S i; S i])) (seq 0 40) ++ [Some (GLeaf (Some (0, 9)%Z) [(5, 1)]%Z)].
+Example ex_diamonds_work :
+  g_lookup_root Z.ltb Z.eqb 256 ex_diamonds 0 5%Z = (Ok (Some 1%Z), 81) /\ snd (g_all_root 256 ex_diamonds 0) = 121.
+Proof. vm_compute. auto. Qed.
+Example ex_cycle : g_all_root 256 [Some (GInner None [1; 0]); Some (GInner (Some (0, 9)%Z) [0; 1; 2]); Some (GLeaf None [(5, 1)]%Z)] 0
+                   = ([(5, 1)%Z], 8).
+Proof. vm_compute. reflexivity. Qed.
 
 (* ---- the hypotheses are satisfiable, the statements are not vacuous *)
 Example bytes_order_ok : key_order bytes_ltb bytes_eqb.
